@@ -23,7 +23,19 @@
 #define MM (1L<<30)                 /* the modulus */
 #define mod_diff(x,y) (((x)-(y))&(MM-1)) /* subtraction mod MM */
 
-long ran_x[KK];                    /* the generator state */
+/* The state is per thread, so that conversions running on different threads
+   neither race on it nor disturb each other's (predictable) sequence */
+#if defined(__STDC_VERSION__) && (__STDC_VERSION__ >= 201112L) && !defined(__STDC_NO_THREADS__)
+	#define RNG_THREAD_LOCAL _Thread_local
+#elif defined(__GNUC__) || defined(__clang__)
+	#define RNG_THREAD_LOCAL __thread
+#elif defined(_MSC_VER)
+	#define RNG_THREAD_LOCAL __declspec(thread)
+#else
+	#define RNG_THREAD_LOCAL
+#endif
+
+RNG_THREAD_LOCAL long ran_x[KK];                    /* the generator state */
 
 #ifdef __STDC__
 	void ran_array(long aa[], int n)
@@ -56,9 +68,9 @@ long ran_x[KK];                    /* the generator state */
 /* after calling ran_start, get new randoms by, e.g., "x=ran_arr_next()" */
 
 #define QUALITY 1009 /* recommended quality level for high-res use */
-long ran_arr_buf[QUALITY];
-long ran_arr_dummy = -1, ran_arr_started = -1;
-long * ran_arr_ptr = &ran_arr_dummy; /* the next random number, or -1 */
+RNG_THREAD_LOCAL long ran_arr_buf[QUALITY];
+RNG_THREAD_LOCAL long ran_arr_dummy = -1, ran_arr_started = -1;
+RNG_THREAD_LOCAL long * ran_arr_ptr = 0; /* the next random number, or -1 (0: not started) */
 
 #define TT  70   /* guaranteed separation between streams */
 #define is_odd(x)  ((x)&1)          /* units bit of x */
@@ -125,9 +137,9 @@ long * ran_arr_ptr = &ran_arr_dummy; /* the next random number, or -1 */
 	ran_arr_ptr = &ran_arr_started;
 }
 
-#define ran_arr_next() (*ran_arr_ptr>=0? *ran_arr_ptr++: ran_arr_cycle())
+#define ran_arr_next() ((ran_arr_ptr && *ran_arr_ptr>=0)? *ran_arr_ptr++: ran_arr_cycle())
 long ran_arr_cycle() {
-	if (ran_arr_ptr == &ran_arr_dummy) {
+	if ((ran_arr_ptr == 0) || (ran_arr_ptr == &ran_arr_dummy)) {
 		ran_start(314159L);    /* the user forgot to initialize */
 	}
 
